@@ -66,7 +66,7 @@ func zzSkeleton() config.Root {
 	refd.Event.Inputs[0].Column = ""
 	main := config.Integration{Name: "main", Enabled: true, Sources: []config.Source{{Name: "s1"}},
 		Table: wpg.Table{Name: "tm",
-			Columns: []wpg.Column{{Name: "c_a", Type: "bytea"}, {Name: "c_x", Type: "numeric"}, {Name: "log_addr", Type: "bytea"}},
+			Columns: []wpg.Column{{Name: "c_a", Type: "bytea"}, {Name: "c_x", Type: "numeric"}, {Name: "log_addr", Type: "bytea"}, {Name: "c_y", Type: "bytea"}},
 			Unique:  [][]string{{"c_a", "c_x"}},
 			Index:   [][]string{{"log_addr"}, {"c_x DESC"}}},
 		Notification: dig.Notification{Columns: []string{"c_a"}},
@@ -75,12 +75,15 @@ func zzSkeleton() config.Root {
 			{Name: "a", Type: "address", Indexed: true, Column: "c_a", Filter: dig.Filter{Op: "contains", Ref: dig.Ref{Integration: "refd", Column: "addr"}}},
 			{Name: "t", Type: "tuple", Components: []dig.Input{
 				{Name: "x", Type: "bytes32", Column: "c_x", Filter: dig.Filter{Op: "contains", Ref: dig.Ref{Integration: "refd", Column: "addr"}}},
+				{Name: "u", Type: "tuple", Components: []dig.Input{
+					{Name: "y", Type: "bytes32", Column: "c_y", Filter: dig.Filter{Op: "contains", Ref: dig.Ref{Integration: "refd", Column: "addr"}}},
+				}},
 			}},
 		}}}
 	return config.Root{Sources: []config.Source{{Name: "s1", ChainID: 1, URLs: []string{"http://n"}}}, Integrations: []config.Integration{refd, main}}
 }
 
-const zzNPos = 20
+const zzNPos = 22
 
 // zzInject appends suffix to configuration string position pos.
 func zzInject(conf *config.Root, pos int, sfx string) string {
@@ -148,6 +151,12 @@ func zzInject(conf *config.Root, pos int, sfx string) string {
 	case 18:
 		m.Event.Inputs[0].Filter.Arg = []string{"0x00" + sfx}
 		return "filter argument"
+	case 20:
+		m.Event.Inputs[1].Components[1].Components[0].Filter.Ref.Column += sfx
+		return "component nested two tuples deep: filter_ref column"
+	case 21:
+		m.Event.Inputs[1].Components[1].Components[0].Filter.Ref.Table += sfx
+		return "component nested two tuples deep: filter_ref table"
 	case 19:
 		m.Event.Inputs[1].Components[0].Column += sfx
 		m.Table.Columns[1].Name += sfx
@@ -208,7 +217,7 @@ func ZZ_C15_Inject(pos, path int) {
 		blocks := make([]eth.Block, 1)
 		blocks[0].Txs = make(eth.Txs, 1)
 		topic1 := make([]byte, 32)
-		blocks[0].Txs[0].Logs = eth.Logs{{Address: make([]byte, 20), Topics: []eth.Bytes{d.Event.SignatureHash(), topic1}, Data: make([]byte, 32)}}
+		blocks[0].Txs[0].Logs = eth.Logs{{Address: make([]byte, 20), Topics: []eth.Bytes{d.Event.SignatureHash(), topic1}, Data: make([]byte, 64)}}
 		func() {
 			defer func() { recover() }()
 			d.Insert(ctx, &sync.Mutex{}, rec, blocks)
@@ -239,7 +248,7 @@ func ZZ_C15_Chain() {
 	zzvrf.Assert(err == nil, "integration-builds")
 	addr := zzvrf.Bytes("log.address", 20, 20)
 	topic1 := zzvrf.Bytes("log.topic1", 32, 32)
-	data := zzvrf.Bytes("log.data", 32, 32)
+	data := zzvrf.Bytes("log.data", 64, 64)
 	blocks := make([]eth.Block, 1)
 	blocks[0].Txs = make(eth.Txs, 1)
 	blocks[0].Txs[0].Logs = eth.Logs{{Address: addr, Topics: []eth.Bytes{d.Event.SignatureHash(), topic1}, Data: data}}
